@@ -8,6 +8,7 @@
 -/
 import NextestModel.Model.Unit
 import NextestModel.Model.Dispatcher
+import NextestModel.Gen.Tables
 namespace NextestModel.C12
 open NextestModel.Unit
 
@@ -371,5 +372,36 @@ example : Alternating false [.req .stop, .req (.shutdown (.once .interrupt)), .r
     ∧ (run { period := 1000, terminateAfter := none, grace := 300, leak := 100 } (U.spawn { period := 1000, terminateAfter := none, grace := 300, leak := 100 })
       [.req .stop, .req (.shutdown (.once .interrupt)), .req .cont, .time 10, .req .stop, .req (.shutdown .twice), .req .cont]).2
       = [.kill .tstp, .ack, .kill .int, .kill .cont, .kill .tstp, .ack, .kill .kill, .kill .cont] := ⟨by simp [Alternating], by decide⟩
+
+/-! ## The model's clauses for a unit under termination are the source's -/
+
+/-- **the Continue arm of `terminate_child`, statement by statement as read from unix.rs on this run, is the model's clause**:
+    each of the three clocks is resumed if (and only if) it is paused, and SIGCONT goes to the process group *unconditionally* —
+    also when termination began while the unit was stopped and only the unit's own stopwatch is paused -/
+theorem terminate_child_continue_arm_is_the_models (c : Cfg) (u : U) (w : Why) (hp : u.phase = .terminating w) :
+    interpArm Gen.terminateChildContinueArm u = onReq c u .cont := by
+  simp only [onReq, hp]
+  simp only [interpArm, Gen.terminateChildContinueArm, List.foldl, guardHolds, applyAction]
+  obtain ⟨ph, sw, is_, gs, ws, ds, ls, lsp, hits, slow, to, lk⟩ := u
+  obtain ⟨swa, swp⟩ := sw
+  obtain ⟨gsr, gsp⟩ := gs
+  obtain ⟨wsa, wsp⟩ := ws
+  cases swp <;> cases gsp <;> cases wsp <;> simp <;> exact hp
+
+/-- … and so is the Stop arm (nothing paused: the dispatcher debounces Stop, `stop_continue_alternate`): the three clocks are
+    paused, SIGTSTP goes to the group, the Stop is acknowledged -/
+theorem terminate_child_stop_arm_is_the_models (c : Cfg) (u : U) (w : Why) (hp : u.phase = .terminating w)
+    (hn : u.sw.paused = false ∧ u.gs.paused = false ∧ u.ws.paused = false) :
+    interpArm Gen.terminateChildStopArm u = onReq c u .stop := by
+  simp only [onReq, hp]
+  simp only [interpArm, Gen.terminateChildStopArm, List.foldl, guardHolds, applyAction]
+  obtain ⟨ph, sw, is_, gs, ws, ds, ls, lsp, hits, slow, to, lk⟩ := u
+  obtain ⟨swa, swp⟩ := sw
+  obtain ⟨gsr, gsp⟩ := gs
+  obtain ⟨wsa, wsp⟩ := ws
+  simp only at hn
+  obtain ⟨rfl, rfl, rfl⟩ := hn
+  simp
+  exact hp
 
 end NextestModel.C12
